@@ -5,14 +5,15 @@ open DFV
 
 /-- **`f.norm` is accepted**: an unlabelled scalar field with `f`'s unit -/
 theorem normOp_accepts (sq : Rat → Rat) (M : Mesh) (f : CF) (hf : Good M f) :
-    ∃ g, normOp sq f = .ok g ∧ Good M g ∧ g.nvdim = 1 ∧ g.vdims = none ∧ g.vmap = [] ∧ g.unit = f.unit := by
+    ∃ g, normOp sq f = .ok g ∧ Good M g ∧ g.nvdim = 1 ∧ g.vdims = none ∧ g.vmap = [] ∧ g.unit = f.unit ∧
+      g.kind = f.kind.realOf.ctor := by
   obtain ⟨hwf, _, hmf⟩ := hf
-  obtain ⟨g, hg, hgg, h1, h2, h3, h4, _⟩ := mkField_scalar_accepts M
+  obtain ⟨g, hg, hgg, h1, h2, h3, h4, h5⟩ := mkField_scalar_accepts M
     ⟨f.data.shape.dropLast ++ [1], fun idx =>
       ⟨sq (sumTo (lastAx f.data.shape) fun c => GQ.ofRat (f.data.get (idx.dropLast ++ [c])).normSq).re, 0⟩⟩
     f.kind.realOf (some f.valid) f.unit (by show f.data.shape.dropLast ++ [1] = _; rw [hwf.1, hmf]; simp)
     (by intro v hv; injection hv with hv; subst hv; rw [hwf.2.1, hmf])
-  refine ⟨g, ?_, hgg, h1, h2, h3, h4⟩
+  refine ⟨g, ?_, hgg, h1, h2, h3, h4, h5⟩
   unfold normOp
   rw [hmf]; exact hg
 
@@ -21,7 +22,7 @@ unlabelled scalar field without mapping, unit `rad` -/
 theorem angleOp_fld_accepts (sq acos : Rat → Rat) (M : Mesh) (hM : MeshOk M) (f o : CF) (hf : Good M f)
     (ho : Good M o) (hn : f.nvdim = o.nvdim) :
     ∃ g, angleOp sq acos f (.fld o) = .ok g ∧ Good M g ∧ g.nvdim = 1 ∧ g.vdims = none ∧ g.vmap = [] ∧
-      g.unit = some "rad" := by
+      g.unit = some "rad" ∧ g.kind = .float := by
   have hcs : checkSame f o false = .ok () :=
     checkSame_accepts f o false (by rw [hf.2.2, ho.2.2]; exact hM.2) (Or.inr hn)
   obtain ⟨d, hd, hdg, hdn, _⟩ := dotOp_fld_accepts M hM f o hf ho hn
@@ -31,11 +32,11 @@ theorem angleOp_fld_accepts (sq acos : Rat → Rat) (M : Mesh) (hM : MeshOk M) (
     (by rw [hn1n, hn2n]; rfl) (by simp [negIntPow])
   obtain ⟨q, hq, hqg, hqn, _⟩ := applyOperator_fld_accepts GQ.div false M hM d p hdg hpg 1
     (by rw [hdn, hpn]; rfl) (by simp [negIntPow])
-  obtain ⟨g, hg, hgg, h1, h2, h3, h4, _⟩ := mkField_scalar_accepts M (q.data.map fun z => ⟨acos z.re, 0⟩) .float
+  obtain ⟨g, hg, hgg, h1, h2, h3, h4, h5⟩ := mkField_scalar_accepts M (q.data.map fun z => ⟨acos z.re, 0⟩) .float
     (some (NDA.zipWith (fun x y => x && y) f.valid o.valid)) (some "rad")
     (by show q.data.shape = _; rw [hqg.1.1, hqg.2.2, hqn])
     (by intro v hv; injection hv with hv; subst hv; show f.valid.shape = _; rw [hf.1.2.1, hf.2.2])
-  refine ⟨g, ?_, hgg, h1, h2, h3, h4⟩
+  refine ⟨g, ?_, hgg, h1, h2, h3, h4, h5⟩
   simp only [angleOp, angleVec, hcs, hd, hn1, hn2, hp, hq]
   rw [hf.2.2]; exact hg
 
